@@ -3,6 +3,7 @@ package main
 import (
 	"fmt"
 	"math/big"
+	"strings"
 
 	"github.com/my-cloud/ruthenium/validatornode/application/verification"
 	"github.com/my-cloud/ruthenium/validatornode/domain/ledger"
@@ -39,7 +40,7 @@ func NewChainMonitor(set *Settings, out *Out, caseId string) *ChainMonitor {
 }
 
 func (m *ChainMonitor) hit(prop, key, what string) {
-	if m.Unaligned && (prop == "C01" || (prop == "C04" && key == "spacing") || prop == "C11") {
+	if m.Unaligned && !strings.HasPrefix(key, "pool-") && (prop == "C01" || (prop == "C04" && key == "spacing") || prop == "C11") {
 		return
 	}
 	k := prop + "|" + key
@@ -331,5 +332,26 @@ func (m *ChainMonitor) CheckProduced(b *ledger.Block, poolBefore []*ledger.Trans
 	}
 	if poolAfter != 0 {
 		m.hit("C11", "pool-not-drained", fmt.Sprintf("%s: %d transactions left in the pool after production", step, poolAfter))
+	}
+}
+
+// CheckPool (C11 first sentence, C16): whatever happened - refusals included - the pool holds
+// only transactions that were admitted to it, none twice, and never a reward.
+func (m *ChainMonitor) CheckPool(pool []*ledger.Transaction, admitted map[string]bool, step string) {
+	seen := map[string]bool{}
+	for _, t := range pool {
+		if t == nil {
+			m.hit("C11", "pool-nil", fmt.Sprintf("%s: the pool holds a nil transaction", step))
+			continue
+		}
+		if t.HasReward() {
+			m.hit("C11", "pool-reward", fmt.Sprintf("%s: the pool holds reward transaction %s", step, t.Id()))
+		} else if !admitted[t.Id()] {
+			m.hit("C11", "pool-foreign", fmt.Sprintf("%s: the pool holds %s which was never admitted", step, t.Id()))
+		}
+		if seen[t.Id()] {
+			m.hit("C11", "pool-duplicate", fmt.Sprintf("%s: the pool holds %s twice", step, t.Id()))
+		}
+		seen[t.Id()] = true
 	}
 }
